@@ -425,10 +425,11 @@ func otlMutate(r *Rng, b []byte) ([]byte, string) {
 
 func areaOtl(c *Ctx) {
 	r := c.Rng
-	nCov := c.N * 25 / 100
+	nCov := c.N * 20 / 100
 	nCd := c.N * 20 / 100
-	nGsub := c.N * 20 / 100
-	nLL := c.N - nCov - nCd - nGsub
+	nGsub := c.N * 15 / 100
+	nGpos := c.N * 15 / 100
+	nLL := c.N - nCov - nCd - nGsub - nGpos
 
 	// ---- coverage
 	special := [][]otlRun{
@@ -585,6 +586,11 @@ func areaOtl(c *Ctx) {
 	// ---- GSUB subtables
 	for i := 0; i < nGsub; i++ {
 		otlGenGsub(c, i)
+	}
+
+	// ---- GPOS subtables
+	for i := 0; i < nGpos; i++ {
+		otlGenGpos(c, i)
 	}
 
 	// ---- lookup lists
@@ -764,7 +770,7 @@ func otlGenGsub(c *Ctx, i int) {
 	what := "regular"
 	switch {
 	case i < 4: // the coverage offset at the 16-bit boundary: 65534 is written, 65536 is refused
-		st = Pick(r, []string{"12", "21", "31"})
+		st = []string{"12", "12", "21", "31"}[i]
 		if st == "12" {
 			n = 32764 + i%2 // covOffs = 6 + 2n = 65534 / 65536
 			rs = []otlRun{{0, n - 1, 0}}
@@ -840,6 +846,260 @@ func otlGenGsub(c *Ctx, i int) {
 			c.Stat("gsub.mutation", mw)
 			o := c.Case(Verdict, "otl.gsub.read", fmt.Sprintf("type=%d data=%s", t2, hx(m)), true)
 			c.Stat("gsub.read-outcome", outcomeClass(o))
+		}
+	}
+}
+
+// ---------------------------------------------------------------- GPOS subtables
+
+// otlVR: "-" is nil, otherwise the eight fields as unsigned 16-bit values.
+func otlParseVR(s string) *gtab.GposValueRecord {
+	if s == "-" {
+		return nil
+	}
+	v := &gtab.GposValueRecord{}
+	q := strings.Split(s, ".")
+	rv := reflect.ValueOf(v).Elem()
+	for k := 0; k < 8; k++ {
+		x, _ := strconv.Atoi(q[k])
+		if k < 4 {
+			rv.Field(k).SetInt(int64(int16(uint16(x))))
+		} else {
+			rv.Field(k).SetUint(uint64(x))
+		}
+	}
+	return v
+}
+
+func otlShowVR(v *gtab.GposValueRecord) string {
+	if v == nil {
+		return "-"
+	}
+	rv := reflect.ValueOf(v).Elem()
+	q := make([]string, 8)
+	for k := 0; k < 8; k++ {
+		if k < 4 {
+			q[k] = strconv.Itoa(int(uint16(rv.Field(k).Int())))
+		} else {
+			q[k] = strconv.Itoa(int(rv.Field(k).Uint()))
+		}
+	}
+	return strings.Join(q, ".")
+}
+
+func otlGposFromFields(f Fields) gtab.Subtable {
+	switch f["st"] {
+	case "11":
+		return &gtab.Gpos1_1{Cov: otlCovFromRuns(otlParseRuns(f["cov"], false)), Adjust: otlParseVR(f["vr"])}
+	case "12":
+		var vrs []*gtab.GposValueRecord
+		for _, x := range f.List("vrs", ",") {
+			vrs = append(vrs, otlParseVR(x))
+		}
+		return &gtab.Gpos1_2{Cov: otlCovFromRuns(otlParseRuns(f["cov"], false)), Adjust: vrs}
+	case "21":
+		l := gtab.Gpos2_1{}
+		for _, t := range f.List("pairs", ";") {
+			i := strings.IndexByte(t, '>')
+			first, _ := strconv.Atoi(t[:i])
+			for _, q := range strings.Split(t[i+1:], ",") {
+				j := strings.IndexByte(q, ':')
+				sec, _ := strconv.Atoi(q[:j])
+				vs := strings.Split(q[j+1:], "/")
+				l[glyph.Pair{Left: glyph.ID(first), Right: glyph.ID(sec)}] = &gtab.PairAdjust{First: otlParseVR(vs[0]), Second: otlParseVR(vs[1])}
+			}
+		}
+		return l
+	}
+	panic("bad st")
+}
+
+func otlShowGpos(st gtab.Subtable) string {
+	switch t := st.(type) {
+	case *gtab.Gpos1_1:
+		return fmt.Sprintf("1.1;cov=%s;vr=%s", otlShowCov(t.Cov), otlShowVR(t.Adjust))
+	case *gtab.Gpos1_2:
+		q := make([]string, len(t.Adjust))
+		for i, v := range t.Adjust {
+			q[i] = otlShowVR(v)
+		}
+		return fmt.Sprintf("1.2;cov=%s;vrs=%s", otlShowCov(t.Cov), strings.Join(q, ","))
+	case gtab.Gpos2_1:
+		byFirst := map[int][]int{}
+		for p := range t {
+			byFirst[int(p.Left)] = append(byFirst[int(p.Left)], int(p.Right))
+		}
+		firsts := make([]int, 0, len(byFirst))
+		for g := range byFirst {
+			firsts = append(firsts, g)
+		}
+		sort.Ints(firsts)
+		groups := make([]string, len(firsts))
+		for i, g := range firsts {
+			secs := byFirst[g]
+			sort.Ints(secs)
+			q := make([]string, len(secs))
+			for k, s2 := range secs {
+				a := t[glyph.Pair{Left: glyph.ID(g), Right: glyph.ID(s2)}]
+				q[k] = fmt.Sprintf("%d:%s/%s", s2, otlShowVR(a.First), otlShowVR(a.Second))
+			}
+			groups[i] = fmt.Sprintf("%d>%s", g, strings.Join(q, ","))
+		}
+		return "2.1;" + strings.Join(groups, ";")
+	}
+	return fmt.Sprintf("other:%T", st)
+}
+
+func init() {
+	ops["otl.gpos.encode"] = func(f Fields) string {
+		st := otlGposFromFields(f)
+		n := -1
+		if guard(func() string { n = gtab.VerifSubtableEncodeLen(st); return "" }) != "" {
+			return "panic"
+		}
+		out := canonPanic(guard(func() string { return "ok:" + otlShowBytes(gtab.VerifSubtableEncode(st)) }))
+		return fmt.Sprintf("%s;len=%d", out, n)
+	}
+	ops["otl.gpos.read"] = func(f Fields) string {
+		return canonPanic(guard(func() string {
+			st, err := gtab.VerifReadGposSubtable(f.Hex("data"), 0, uint16(f.Int("type")))
+			if err != nil {
+				return errKind(err)
+			}
+			return "ok:" + otlShowGpos(st)
+		}))
+	}
+}
+
+func otlGenVR(r *Rng) string {
+	switch r.Intn(8) {
+	case 0:
+		return "-"
+	case 1:
+		return "0.0.0.0.0.0.0.0"
+	}
+	q := make([]string, 8)
+	mask := Pick(r, []int{4, 4, 1, 5, 15, 0x84, 0xFF, r.Intn(256)})
+	for k := range q {
+		v := 0
+		if mask>>k&1 == 1 {
+			v = Pick(r, []int{1, 65535, 32768, 32767, r.Intn(65536), r.Intn(200)})
+		}
+		q[k] = strconv.Itoa(v)
+	}
+	return strings.Join(q, ".")
+}
+
+// otlGenGpos writes the cases for one GPOS subtable.
+func otlGenGpos(c *Ctx, i int) {
+	r := c.Rng
+	st := Pick(r, []string{"11", "12", "12", "21", "21"})
+	what := "regular"
+	var rs []otlRun
+	for {
+		rs = otlGenRuns(r, false)
+		if otlCountGlyphs(rs) <= 600 {
+			break
+		}
+	}
+	n := otlCountGlyphs(rs)
+	args := ""
+	switch {
+	case i == 0: // GPOS 1.2 with the coverage offset at the 16-bit boundary: 8 + 2n = 65534
+		st, what = "12", "boundary-ok"
+		n = 32763
+		rs = []otlRun{{0, n - 1, 0}}
+	case i == 1: // ... and 65536: refused
+		st, what = "12", "boundary-refused"
+		n = 32764
+		rs = []otlRun{{0, n - 1, 0}}
+	case i == 2 || i == 3: // GPOS 2.1 whose last pair set starts at 65534 / 65536
+		st = "21"
+		what = "boundary-ok"
+		if i == 3 {
+			what = "boundary-refused"
+		}
+	}
+	c.Stat("gpos.kind", st+":"+what)
+	switch st {
+	case "11":
+		args = fmt.Sprintf("st=11 cov=%s vr=%s", otlRunsString(rs, false), otlGenVR(r))
+	case "12":
+		vrs := make([]string, n)
+		one := otlGenVR(r)
+		for k := range vrs {
+			if strings.HasPrefix(what, "boundary") {
+				vrs[k] = fmt.Sprintf("0.0.%d.0.0.0.0.0", 1+k%9)
+			} else if r.Chance(1, 3) {
+				vrs[k] = one
+			} else {
+				vrs[k] = otlGenVR(r)
+			}
+		}
+		if what == "regular" && r.Chance(1, 12) && n > 0 {
+			vrs = vrs[:len(vrs)-1]
+			what = "count-mismatch"
+		}
+		args = fmt.Sprintf("st=12 cov=%s vrs=%s", otlRunsString(rs, false), strings.Join(vrs, ","))
+	case "21":
+		var groups []string
+		nFirst := r.Range(0, 12)
+		first := r.Intn(200)
+		if strings.HasPrefix(what, "boundary") {
+			// 2 first glyphs; header 10+4, coverage 4+2*2=8 -> the second pair set starts at
+			// 22 + 2 + 4*k for k pairs with one value each; 65534 = 24 + 4*16377 + 2 ... use k so that
+			// the start is 65534 (i==2) or, with one more glyph pair and padding, 65536 (i==3)
+			k := 16377 // 22 + 2 + 4*16377 = 65532
+			if i == 3 {
+				k = 16378 // 65536
+			}
+			q := make([]string, k)
+			for j := range q {
+				q[j] = fmt.Sprintf("%d:0.0.%d.0.0.0.0.0/-", j, 1+j%5)
+			}
+			groups = append(groups, "5>"+strings.Join(q, ","), "9>7:0.0.3.0.0.0.0.0/-")
+			if i == 2 {
+				what = "boundary-ok"
+			}
+		} else {
+			for a := 0; a < nFirst; a++ {
+				nSec := r.Range(1, 6)
+				sec := r.Intn(300)
+				q := make([]string, nSec)
+				for j := range q {
+					q[j] = fmt.Sprintf("%d:%s/%s", sec, otlGenVR(r), Pick(r, []string{"-", "-", otlGenVR(r)}))
+					sec += r.Range(1, 50)
+				}
+				groups = append(groups, fmt.Sprintf("%d>%s", first, strings.Join(q, ",")))
+				first += r.Range(1, 40)
+			}
+		}
+		args = "st=21 pairs=" + strings.Join(groups, ";")
+	}
+	out := c.Case(Verdict, "otl.gpos.encode", args, true)
+	c.Stat("gpos.encode-outcome", outcomeClass(out))
+	if !strings.HasPrefix(out, "ok:") {
+		return
+	}
+	b := gtab.VerifSubtableEncode(otlGposFromFields(parseFields(args)))
+	c.Stat("gpos.bytes", bucket(len(b)))
+	tp := map[string]int{"11": 1, "12": 1, "21": 2}[st]
+	if len(b) <= 30000 || strings.HasPrefix(what, "boundary") {
+		c.Case(Verdict, "otl.gpos.read", fmt.Sprintf("type=%d data=%s", tp, hx(b)), true)
+	}
+	if len(b) <= 6000 {
+		for k := 0; k < 3; k++ {
+			m, mw := otlMutate(r, b)
+			t2 := tp
+			if r.Chance(1, 6) {
+				t2 = r.Range(1, 2)
+			}
+			if len(m) >= 2 && t2 == 2 && m[0] == 0 && m[1] == 2 {
+				continue // GPOS 2.2 is not modelled
+			}
+			c.Stat("gpos.mutation", mw)
+			o := c.Case(Verdict, "otl.gpos.read", fmt.Sprintf("type=%d data=%s", t2, hx(m)), true)
+			c.Stat("gpos.read-outcome", outcomeClass(o))
 		}
 	}
 }
